@@ -54,7 +54,7 @@ def extract(out, clsname):
                     else:
                         row[bsym[1] - k0] = poly[1]
                 else:
-                    T.problems.append(("AFF-UPDATE", "stage %d state of equation %d contains foreign term %s" % (j, q, bsym)))
+                    T.problems.append(("AFF-UPDATE", ("stage %d state of equation %d uses a right-hand-side array that was kept by reference across a later right-hand-side evaluation (a provider that re-uses its output buffers has overwritten it): stage slopes must be copied" % (j, q)) if bsym[0] == "STALE" else ("stage %d state of equation %d contains foreign term %s" % (j, q, bsym))))
             if ("Q0", q) not in form:
                 T.problems.append(("AFF-UPDATE", "stage %d state of equation %d lost the initial state" % (j, q)))
             if "arr" not in data[q].kinds and any(row):
@@ -90,7 +90,7 @@ def extract(out, clsname):
                 else:
                     b[bsym[1] - k0] = poly[1]
             else:
-                T.problems.append(("AFF-UPDATE", "final state of equation %d contains foreign term %s" % (q, bsym)))
+                T.problems.append(("AFF-UPDATE", ("final state of equation %d uses a right-hand-side array that was kept by reference across a later right-hand-side evaluation (a provider that re-uses its output buffers has overwritten it): stage slopes must be copied" % q) if bsym[0] == "STALE" else ("final state of equation %d contains foreign term %s" % (q, bsym))))
         if ("Q0", q) not in form:
             T.problems.append(("AFF-UPDATE", "final state of equation %d lost the initial state" % q))
         if "min" in f.data[q].kinds or "max" in f.data[q].kinds:
